@@ -359,6 +359,15 @@ def allowed_lines(doc, ledger, nodes, info):
         return {led["line"]}, False, "command line %d" % led["line"]
     if where == "within":
         return set(range(led["line"], led["end_line"] + 1)), False, "lines %d-%d of the command" % (led["line"], led["end_line"])
+    if where.startswith("dup:"):
+        # a parameter given twice: the offending things are the command and the two occurrences of that parameter,
+        # not whatever other argument happens to stand last (seeded change C11-i1)
+        name = where.split(":", 1)[1]
+        lines = {led["line"]}
+        for a in led["arglist"]:
+            if a["name"] == name:
+                lines |= set(range(a["line"], a["end"] + 1))
+        return lines, False, "the command's line or an occurrence of %s, lines %s" % (name, sorted(lines))
     if where == "exec":
         # a command that finds its own settings inconsistent (lengths, thresholds, directions, weights) validates
         # parameters: that error carries a line of the command; other execute-time failures may carry none
